@@ -834,6 +834,26 @@ def unroll_literal_loops(fn: ast.FunctionDef, consts: Optional[Dict[str, ast.AST
         return out
 
     fn.body = block(fn.body)
+    if changed:
+        # a local table that was only there to be iterated is dead once its loop is written out: drop the binding, so that
+        # the method references it holds are not taken for calls every path may make
+        loads = {n.id for n in ast.walk(fn) if isinstance(n, ast.Name) and isinstance(n.ctx, ast.Load)}
+        dead = {nm for nm in local_tuples if nm not in loads}
+        if dead:
+            def prune(stmts: List[ast.stmt]) -> List[ast.stmt]:
+                out2 = []
+                for st in stmts:
+                    tgt = st.targets[0] if isinstance(st, ast.Assign) and len(st.targets) == 1 else (st.target if isinstance(st, ast.AnnAssign) else None)
+                    if isinstance(tgt, ast.Name) and tgt.id in dead:
+                        continue
+                    for fld in ("body", "orelse", "finalbody"):
+                        v = getattr(st, fld, None)
+                        if isinstance(v, list) and v and isinstance(v[0], ast.stmt):
+                            setattr(st, fld, prune(v) or [ast.Pass()])
+                    out2.append(st)
+                return out2
+
+            fn.body = prune(fn.body) or [ast.Pass()]
     return changed
 
 
